@@ -120,6 +120,35 @@ class C02(Spec):
                 else:
                     a = rng.choice(sk)
                     h.append("jeq %d %d %d" % (a, a if rng.random() < 0.2 else rng.choice(sk), seed))
+            if rng.random() < 0.4:
+                # reset and REUSE of a union whose own table has rebuilt (theta lowered below the inputs' thetas), in every table
+                # configuration incl. the ones that start at full size (resize factor X1; lg_k 5 with X4/X8; lg_k 6 with X8), where
+                # reset() does not reallocate: afterwards the union must behave like a fresh one
+                lgu = rng.choice([5, 5, 6, 7])
+                rf = rng.choice([0, 0, 1, 2, 3])
+                u = fresh()
+                h.append("unew %d %d %d 3f800000 %d" % (u, lgu, rf, seed))
+                base = rng.randrange(universe * 8)
+                big = []
+                for part in range(2):
+                    i = fresh()
+                    h.append("new %d %d %d 3f800000 %d" % (i, rng.choice([8, 9]), rng.randrange(4), seed))
+                    for x in range((1 << lgu) * 2 + rng.randrange(20)):
+                        h.append("upd %d u64 %d" % (i, base + part * 100000 + x))
+                    big.append(i)
+                    h.append("uupd %d %d" % (u, i))
+                h.append("ures %d %d %d" % (u, fresh(), rng.randrange(2)))
+                h.append("ureset %d" % u)
+                h.append("ures %d %d %d" % (u, fresh(), rng.randrange(2)))
+                sm = fresh()
+                h.append("new %d %d %d 3f800000 %d" % (sm, 8, rng.randrange(4), seed))
+                for x in range(rng.choice([1, 5, 13, (1 << lgu) - 1])):
+                    h.append("upd %d u64 %d" % (sm, base + 500000 + x))
+                h.append("uupd %d %d" % (u, sm))
+                h.append("ures %d %d %d" % (u, fresh(), rng.randrange(2)))
+                h.append("ureset %d" % u)
+                h.append("uupd %d %d" % (u, big[0]))
+                h.append("ures %d %d %d" % (u, fresh(), rng.randrange(2)))
             if rng.random() < 0.5:
                 # the SAME stream in sketches of different size: the small one is in estimation mode and its theta is the hash of an
                 # item it discarded, which the large (exact / larger-k) one still retains: a hash EQUAL to the result theta must not
